@@ -34,6 +34,11 @@ func (g *Gen) frameElemStore(st *State, ref string, pos token.Pos) {
 	if st.fresh[ref] {
 		return
 	}
+	for _, m := range g.c.Modifies {
+		if m == "mem" { // frame: any array may be written (arrays reached through interfaces or maps)
+			return
+		}
+	}
 	var alts []string
 	for _, m := range g.memModRefs(st) {
 		alts = append(alts, fmt.Sprintf("(= %s %s)", ref, m))
